@@ -1510,6 +1510,20 @@ struct array : static_array<T, D, Alloc> {
 		return *this;
 	}
 
+ private:
+	// destroys the elements (if they were constructed) and returns the block of a non-owning reference to storage obtained from this->alloc()
+	void release_(typename array::ref& tmp, bool constructed) noexcept {
+		if constexpr(!(std::is_trivially_destructible_v<typename array::element_type> || multi::force_element_trivial_destruction<typename array::element_type>)) {
+			if(constructed) {
+				adl_alloc_destroy_n(this->alloc(), tmp.data_elements(), tmp.num_elements());
+			}
+		}
+		if(tmp.num_elements()) {
+			multi::allocator_traits<typename array::allocator_type>::deallocate(this->alloc(), tmp.base(), static_cast<typename multi::allocator_traits<typename array::allocator_type>::size_type>(tmp.num_elements()));
+		}
+	}
+
+ public:
 	auto reextent(typename array::extensions_type const& extensions) && -> array&& {
 		if(extensions == this->extensions()) {
 			return std::move(*this);
@@ -1545,12 +1559,19 @@ struct array : static_array<T, D, Alloc> {
 			),
 			extensions
 		);
-		if constexpr(!(std::is_trivially_default_constructible_v<typename array::element_type> || multi::force_element_trivial_default_construction<typename array::element_type>)) {
-			adl_alloc_uninitialized_value_construct_n(this->alloc(), tmp.data_elements(), tmp.num_elements());
-		}
-		auto const is = intersection(this->extensions(), tmp.extensions());  // tmp's extensions collapse to empty when any requested extent is empty
-		if(is.num_elements() != 0) {  // nothing to carry over when old and new extensions have no index in common (and *this may have no storage to slice)
-			tmp.apply(is).elements() = std::as_const(*this).apply(is).elements();  // equal sizes, each slice keeps the index bases of its own array; the const source selects the copying (not noexcept) assignment
+		bool tmp_constructed = false;
+		try {
+			if constexpr(!(std::is_trivially_default_constructible_v<typename array::element_type> || multi::force_element_trivial_default_construction<typename array::element_type>)) {
+				adl_alloc_uninitialized_value_construct_n(this->alloc(), tmp.data_elements(), tmp.num_elements());
+			}
+			tmp_constructed = true;
+			auto const is = intersection(this->extensions(), tmp.extensions());  // tmp's extensions collapse to empty when any requested extent is empty
+			if(is.num_elements() != 0) {  // nothing to carry over when old and new extensions have no index in common (and *this may have no storage to slice)
+				tmp.apply(is).elements() = std::as_const(*this).apply(is).elements();  // equal sizes, each slice keeps the index bases of its own array; the const source selects the copying (not noexcept) assignment
+			}
+		} catch(...) {  // tmp does not own its block: give it back (and its elements, if they were constructed)
+			release_(tmp, tmp_constructed);
+			throw;
 		}
 		this->destroy();
 		this->deallocate();
@@ -1580,10 +1601,17 @@ struct array : static_array<T, D, Alloc> {
 			),
 			exs
 		);
-		this->uninitialized_fill_n(tmp.data_elements(), static_cast<typename multi::allocator_traits<typename array::allocator_type>::size_type>(tmp.num_elements()), elem);
-		auto const is = intersection(this->extensions(), tmp.extensions());  // tmp's extensions collapse to empty when any requested extent is empty
-		if(is.num_elements() != 0) {  // nothing to carry over when old and new extensions have no index in common (and *this may have no storage to slice)
-			tmp.apply(is).elements() = std::as_const(*this).apply(is).elements();  // equal sizes, each slice keeps the index bases of its own array; the const source selects the copying (not noexcept) assignment
+		bool tmp_constructed = false;
+		try {
+			this->uninitialized_fill_n(tmp.data_elements(), static_cast<typename multi::allocator_traits<typename array::allocator_type>::size_type>(tmp.num_elements()), elem);
+			tmp_constructed = true;
+			auto const is = intersection(this->extensions(), tmp.extensions());  // tmp's extensions collapse to empty when any requested extent is empty
+			if(is.num_elements() != 0) {  // nothing to carry over when old and new extensions have no index in common (and *this may have no storage to slice)
+				tmp.apply(is).elements() = std::as_const(*this).apply(is).elements();  // equal sizes, each slice keeps the index bases of its own array; the const source selects the copying (not noexcept) assignment
+			}
+		} catch(...) {  // tmp does not own its block: give it back (and its elements, if they were constructed)
+			release_(tmp, tmp_constructed);
+			throw;
 		}
 		this->destroy();
 		this->deallocate();
